@@ -353,7 +353,34 @@ def probe_second_evaluation(inp: Dict[str, Any]) -> Dict[str, Any]:
             "fields": {"kinds": sorted(kinds), "xmethod": method, "molecule": "+".join(names), "n_states": n}}
 
 
-PROBES = {"staggered_batch": probe_staggered_batch, "second_evaluation": probe_second_evaluation, "eigenpairs": probe_eigenpairs, "guess_independence": probe_guess_independence}
+def probe_uninit_buffers(inp: Dict[str, Any]) -> Dict[str, Any]:
+    """uninitialised scratch memory may hold ANY bit pattern: the staggered RPA batch is solved again with `torch.empty_like` of the solver module returning
+    NaN-filled tensors (the worst the allocator can hand out). Every entry the solver reads must be one it has written (finding F34: the A*V / B*V buffers
+    entered batched products multiplied by zero vectors, 0 * NaN = NaN, and the batch stopped with a LinAlgError that depended on the allocator)"""
+    import torch
+
+    import seqm.seqm_functions.rpa as R
+
+    class _T:
+        def __getattr__(self, k):
+            return getattr(torch, k)
+
+        def empty_like(self, x, *a, **k):
+            return torch.full_like(x, float("nan"))
+    old = R.torch
+    R.torch = _T()
+    try:
+        r = probe_staggered_batch(dict(inp, xmethod="rpa"))
+    finally:
+        R.torch = old
+    r["fields"] = dict(r.get("fields") or {}, probe="uninit_buffers")
+    if not r["ok"]:
+        r["fields"]["kinds"] = sorted(set(r["fields"].get("kinds", [])) | {"uninitialised_read"})
+        r["observed"] = ["with NaN-filled uninitialised buffers: " + str(o)[:200] for o in r["observed"][:3]]
+    return r
+
+
+PROBES = {"uninit_buffers": probe_uninit_buffers, "staggered_batch": probe_staggered_batch, "second_evaluation": probe_second_evaluation, "eigenpairs": probe_eigenpairs, "guess_independence": probe_guess_independence}
 
 CH4_TD = [[0.0, 0.0, 0.0], [0.629, 0.629, 0.629], [0.629, -0.629, -0.629], [-0.629, 0.629, -0.629], [-0.629, -0.629, 0.629]]
 C2H4_D2H = [[0, 0, 0.6695], [0, 0, -0.6695], [0, 0.9289, 1.2321], [0, -0.9289, 1.2321], [0, 0.9289, -1.2321], [0, -0.9289, -1.2321]]
@@ -380,6 +407,7 @@ def gen_cases(ctx: Ctx):
         cases.append(("eigenpairs", {"names": [nm] * k, "n_states": 3, "xmethod": "cis", "method": ["AM1", "PM3"][i % 2], "distort": d[::-1], "seed": int(rng.integers(0, 10**6)), "check_apb": False}))
     for i, (nm, ns) in enumerate([("ch2o", 2), ("hcn", 3), ("h2o", 2), ("ch2o", 4), ("co", 3), ("hcn", 2)][: (6 if ctx.thorough else 3)]):
         cases.append(("staggered_batch", {"name": nm, "n_states": ns, "xmethod": ["rpa", "cis"][(i + ctx.seed) % 2] if i else "rpa", "method": ["AM1", "PM3", "MNDO"][i % 3], "seed": int(rng.integers(0, 10**6)), "layout": (i + ctx.seed) % 2}))
+    cases.append(("uninit_buffers", {"name": ["ch2o", "hcn", "h2o"][ctx.seed % 3], "n_states": 2, "method": ["AM1", "PM3"][ctx.seed % 2], "seed": int(rng.integers(0, 10**6)), "layout": ctx.seed % 2}))
     # orbital windows (restricted active space): the reference is the dense matrix in the SAME window
     for i, (nm, win, ns) in enumerate([("ch2o", [3, 2], 3), ("c2h4", [4, 3], 4), ("h2o", [2, 2], 2), ("hcn", [5, 1], 2)][: (4 if ctx.thorough else 2)]):
         cases.append(("eigenpairs", {"names": [nm] * (1 + i % 2), "n_states": ns, "xmethod": ["cis", "rpa"][(i + ctx.seed) % 2], "method": ["AM1", "PM3"][i % 2], "window": win, "check_apb": False,
